@@ -185,7 +185,7 @@ def _tree(task):
     cap = 4 if tier == "quick" or d >= 3 else 5
     if any(k in n for _, _, n in S.node_ids(spec) for k in ("uf", "of")):
         cap = 10  # (data below and above the range must be in the menu for the flow slots to be on the path at all)
-        n = min(n, 2) if tier == "quick" else n
+        n = min(n, 2) if tier == "quick" else min(n, 3)  # (10 records: 10**3 streams x subsets x faults per failing node)
     recs = A.records(spec, "core", cap=cap)
     evs = [(r, 1.0) for r in recs]
     nodes = failing_nodes(spec)
